@@ -29,7 +29,7 @@ func (p *Prop) Meta() simkit.Meta {
 		Real: []string{"stats.LinearHist", "stats.LogHist", "stats.HistogramQuantile", "stats.HistogramIQR"},
 		Stub: []string{"producer", "stub Histogram (drawn counters) for a quarter of the runs"},
 		Assumptions: []string{
-			"NewLogHist with max<=1 and NaN/Inf samples are not generated; any finite sample is (up to 1e40 ranges outside a LinearHist, the whole positive double range and x<=0 for a LogHist): since fix 4d831fb the bin index is clamped before the float-to-int conversion, so nothing platform-defined is left",
+			"NewLogHist with max<=1 and NaN samples are not generated (+Inf and -Inf are: over and under); any finite sample is (up to 1e40 ranges outside a LinearHist, the whole positive double range and x<=0 for a LogHist): since fix 4d831fb the bin index is clamped before the float-to-int conversion, so nothing platform-defined is left",
 			"bins are at least 1e6 ulps of the range end points wide",
 			"a value within 16*eps*(|min|+|max|+|x|) of an edge (LogHist: 16*eps*(1+|ln x|) in log space) may fall on either side, as the statement allows",
 			"the floor(q*total)-th smallest sample is counted from 1 (the 1st smallest is the minimum, q=1 names the maximum - the statement expects q=1 to work); rank 0 names no sample and nothing is demanded there beyond not panicking; the in-bin interpolation rank is accepted within +-1. (The first version accepted a 0-based reading as well, which made q=1 with overflow samples vacuous; an independent breaking change, seeded C14-t3, showed that.)",
@@ -98,10 +98,23 @@ func (s *shape) place(x float64) (idx int, lowerOK, upperOK bool) {
 			return math.MaxInt32, false, false
 		}
 		idx = int(i64)
-		tol := 48 * refmodel.Eps * math.Max(math.Abs(s.min), math.Max(math.Abs(s.max), math.Abs(x)))
-		lo, _ := new(big.Rat).Sub(rx, s.edgeLin(idx)).Float64()
-		hi, _ := new(big.Rat).Sub(s.edgeLin(idx+1), rx).Float64()
-		return idx, lo <= tol, hi <= tol
+		// rounding distance of an edge E: the bin coordinate (x-min)*delta carries a
+		// relative error of a few eps, i.e. a few eps*|E-min| in x units, plus the
+		// representation of x and E themselves. An edge that coincides with min is
+		// exact: a value 1e-12 below min=0 is NOT within rounding distance of it,
+		// however large max is. (The first version used eps*max(|min|,|max|,|x|) for
+		// every edge, which was needlessly lax at the first edge: seeded C14-y4.)
+		eLo, eHi := s.edgeLin(idx), s.edgeLin(idx+1)
+		tolAt := func(e *big.Rat) float64 {
+			ef, _ := e.Float64()
+			// (+ the underflow threshold: a value a few denormals away from the edge
+			// gives a bin coordinate that rounds to zero)
+			uf := 8 * math.SmallestNonzeroFloat64 * math.Max(1, (s.max-s.min)/float64(s.nbins))
+			return 48*refmodel.Eps*math.Max(math.Abs(x), math.Max(math.Abs(ef), math.Abs(ef-s.min))) + uf
+		}
+		lo, _ := new(big.Rat).Sub(rx, eLo).Float64()
+		hi, _ := new(big.Rat).Sub(eHi, rx).Float64()
+		return idx, lo <= tolAt(eLo), hi <= tolAt(eHi)
 	}
 	// log: t = m*ln(x)/ln(b)
 	lnx := math.Log(x)
@@ -226,11 +239,30 @@ func (c *ctx) snapshot() []uint {
 	return append(s, o)
 }
 
-var valueClasses = []string{"far-below", "just-below-first", "on-edge", "edge-1ulp", "edge+1ulp", "interior", "last-edge", "above", "non-positive"}
+var valueClasses = []string{"far-below", "just-below-first", "on-edge", "edge-1ulp", "edge+1ulp", "interior", "last-edge", "above", "non-positive", "infinite", "edge-tiny"}
 
 func (c *ctx) genValue() (float64, int) {
 	s := c.sh
 	cls := c.g.Pick(1, 3, 3, 2, 2, 4, 1, 2)
+	if c.g.Chance(1, 40) {
+		// "well above / well below the range" taken to the limit
+		return []float64{math.Inf(1), math.Inf(-1)}[c.g.Intn(2)], 9
+	}
+	if !s.log && !s.huge && c.g.Chance(1, 12) {
+		// an edge minus/plus a tiny fraction (1e-3 .. 1e-30) of the bin width: far
+		// more than rounding distance when the edge is exact (min itself), so the
+		// side is decided; for other edges the per-edge tolerance applies
+		i := c.g.Range(0, s.nbins)
+		if c.g.Chance(1, 2) {
+			i = 0
+		}
+		w := (s.max - s.min) / float64(s.nbins)
+		d := w * math.Pow(10, -float64(c.g.Range(3, 30)))
+		if c.g.Chance(1, 2) {
+			d = -d
+		}
+		return s.edge(float64(i)) + d, 10
+	}
 	if s.log && c.g.Chance(1, 12) {
 		// zero and negative samples are below the first bin (edge b^0 = 1) of a LogHist
 		return []float64{0, -1, -0.5, -1e6, math.Copysign(0, -1)}[c.g.Intn(5)], 8
@@ -281,7 +313,7 @@ func (c *ctx) genValue() (float64, int) {
 
 func (c *ctx) add() {
 	x, cls := c.genValue()
-	if math.IsNaN(x) || math.IsInf(x, 0) || (c.sh.log && !(x > 0) && cls != 8) {
+	if math.IsNaN(x) || (math.IsInf(x, 0) && cls != 9) || (c.sh.log && !(x > 0) && cls != 8 && cls != 9) {
 		return
 	}
 	if c.sh.huge {
@@ -289,7 +321,7 @@ func (c *ctx) add() {
 	}
 	c.logf("Add(%v) [%s]", x, valueClasses[cls])
 	c.hash.Str("A" + valueClasses[cls])
-	if cls >= 1 && cls <= 4 || cls == 6 {
+	if cls >= 1 && cls <= 4 || cls == 6 || cls == 10 {
 		c.nontriv = true
 	}
 	if cls == 1 {
@@ -335,6 +367,17 @@ func (c *ctx) add() {
 	}
 	c.prev = cur
 	// (ii) placement by the stated edges
+	if cls == 9 {
+		c.probe("infinite_sample")
+		want := c.sh.nbins + 1
+		if math.IsInf(x, -1) {
+			want = 0
+		}
+		if moved != want {
+			c.fail("placement", "Add", valueClasses[cls], "%s%s Add(%v) incremented %s; it belongs in %s", c.kind(), c.shapeStr(), x, c.slotName(moved), c.slotName(want))
+		}
+		return
+	}
 	if cls == 8 {
 		c.probe("loghist_non_positive_value")
 		if moved != 0 {
@@ -739,7 +782,7 @@ func (p *Prop) Run(t *simhook.Tape, opt simkit.RunOpt) *simkit.RunResult {
 		c.logf("%s%s events=%d", c.kind(), c.shapeStr(), nev)
 		c.hash.Str(fmt.Sprintf("%s/%d", c.kind(), sh.nbins))
 		c.prev = c.snapshot()
-		for e := 0; e < nev && c.viol == nil; e++ {
+		for e := 0; e < nev && c.viol == nil && !simhook.OverBudget(); e++ {
 			var k int
 			if c.stub {
 				k = 2 + g.Pick(3, 1)
@@ -764,7 +807,10 @@ func (p *Prop) Run(t *simhook.Tape, opt simkit.RunOpt) *simkit.RunResult {
 	}
 	res, abort := simkit.RunSolo(t, 4000000, 200000, true, body)
 	rr := &simkit.RunResult{Hash: uint64(c.hash), Nontrivial: c.nontriv, Steps: res.Steps, History: c.hist, Policy: "seq"}
-	if abort != nil && c.viol == nil {
+	if abort != nil && !simkit.AbortIsVerdict(abort) {
+		rr.BudgetHit = true
+	}
+	if simkit.AbortIsVerdict(abort) && c.viol == nil {
 		c.viol = &simkit.Violation{Property: "C14", Oracle: "C14/no-progress", Op: "run", Seq: res.Steps, Message: abort.Reason + abort.Where()}
 		rr.BudgetHit = true
 	}
